@@ -277,6 +277,61 @@ func Monitors(c *Case) []vh.Violation {
 			}
 		}
 	}
+	// C04: the decision is taken by the supervisor's CURRENT instance. A supervisor that implements the strategy itself and has been
+	// restarted decides with its new instance (the old one has handled its own OnTerminated): the instance that decided must be the
+	// last instance of that actor that was launched before the decision.
+	{
+		current := map[int]int{}
+		for _, o := range fl {
+			switch {
+			case o.K == "H" && (o.Trig == "L" || o.Trig == "RD"):
+				if o.Inst > current[o.A] {
+					current[o.A] = o.Inst
+				}
+			case o.K == "DEC" && o.N >= 0 && o.A >= 0:
+				if o.N != current[o.A] {
+					add("C04:decision-by-replaced-instance", fmt.Sprintf("the decision about actor %d at step %d was taken by instance %d of supervisor %d, whose current instance is %d",
+						o.Who, o.Step, o.N, o.A, current[o.A]), nil)
+				}
+			}
+		}
+	}
+	// C04: a decided Resume takes effect. The final shutdown is requested only when nothing is enabled any more: a user message
+	// sent to an actor before that moment which is then still neither handled nor a dead letter is stuck in a suspended mailbox.
+	// If the last supervisor decision about that actor was Resume (and it did not fail again afterwards), the Resume had no effect.
+	if calmBefore && !stuck {
+		lastDec := map[int]flat{}
+		failedAfter := map[int]bool{}
+		for _, o := range fl {
+			if o.Step >= shutAt {
+				break
+			}
+			switch {
+			case o.K == "DEC":
+				lastDec[o.Who] = o
+				failedAfter[o.Who] = false
+			case o.K == "F":
+				failedAfter[o.A] = true
+			}
+		}
+		doneBefore := map[key]bool{}
+		for _, o := range fl {
+			if o.Step < shutAt && ((o.K == "H" && o.Trig == "P") || o.K == "D") {
+				doneBefore[key{o.Serial, o.A}] = true
+			}
+		}
+		reported := map[int]bool{}
+		for _, o := range fl {
+			if o.K != "S" || o.Step >= shutAt || o.A == RefGuard || o.A == RefSub || doneBefore[key{o.Serial, o.A}] || reported[o.A] {
+				continue
+			}
+			if d, ok := lastDec[o.A]; ok && d.Dir == "resume" && !failedAfter[o.A] {
+				reported[o.A] = true
+				add("C04:resume-without-effect", fmt.Sprintf("actor %d: the supervisor decided Resume at step %d, yet message serial %d sent to it at step %d was still neither handled nor a dead letter when the system went quiet (step %d)",
+					o.A, d.Step, o.Serial, o.Step, shutAt), nil)
+			}
+		}
+	}
 	// ---------------- C05: hierarchy
 	parent := map[int]int{}
 	for _, o := range fl {
